@@ -114,6 +114,17 @@ def gen_arith(tier, seed, universe=None, maxlen=3):
             lines.append(f"pow ${h} $24 n:2"); h += 1
             for op in ("neg", "absm", "sign"):
                 lines.append(f"{op} ${h} $24"); h += 1
+            # subclasses on the left (Parameter, StockArray, Flow) and numpy scalars on the right
+            for kind in ("param", "stock", "flow"):
+                lines.append(arr_line(h, 10, xs, rand_vals(r, size(xs), nonzero=True)).replace("arr ", f"sarr {kind} ", 1)); sub = h; h += 1
+                for op in ("add", "rsub", "mul", "max"):
+                    lines.append(f"{op} ${h} ${sub} n:{c}"); h += 1
+                lines.append(f"pow ${h} ${sub} n:2"); h += 1
+                lines.append(f"add ${h} ${sub} $21"); h += 1
+            for op in ("add", "sub", "mul", "div", "min", "max"):
+                lines.append(f"{op} ${h} $20 I:{r.choice([2, 3, -5])}"); h += 1
+                lines.append(f"{op} ${h} $20 F:{r.choice(['1/2', '3/4', '-5/2'])}"); h += 1
+            lines.append(f"pow ${h} $20 I:2"); h += 1
             # in-place absolute value / sign of one array, then the out-of-place forms on another one of
             # the same shape: the first array keeps what the in-place call gave it
             for ip, oop in (("absi", "absm"), ("signi", "sign")):
